@@ -55,6 +55,7 @@ func run(seed int64, n int, dir string, _ []string) {
 		r.OnlyFailureLaws = true
 		r.SessionSetup(fmt.Sprintf("s%d", seq))
 		r.Wraps = 20
+		r.NumRefs = 15
 		// every second sequence runs with the discarded value objects poisoned (lib/value, build tag verif)
 		r.Poison = dml.SetPoison(seq%2 == 1) && seq%2 == 1
 		if r.Poison {
